@@ -61,6 +61,30 @@ func init() {
 		}
 		return first
 	}
+	// clloop text: the caller's own loop - ParseOne again and again on ONE bufio.Reader until io.EOF - is Parse
+	ops["clloop"] = func(a []string) string {
+		br := bufio.NewReader(strings.NewReader(arg(a, 0)))
+		es := changelog.ChangelogEntries{}
+		for i := 0; ; i++ {
+			e, err := changelog.ParseOne(br)
+			if err == io.EOF {
+				return showEntries(es, nil)
+			}
+			if err != nil {
+				if e != nil {
+					return "err-with-value"
+				}
+				return "err"
+			}
+			if e == nil {
+				return "nil-without-error"
+			}
+			es = append(es, *e)
+			if i > len(arg(a, 0))+2 {
+				return "timeout"
+			}
+		}
+	}
 	// clparse2 first second: Parse(first) - whatever it gives - and then Parse(second) in the same process, at once
 	ops["clparse2"] = func(a []string) string {
 		changelog.Parse(strings.NewReader(arg(a, 0)))
